@@ -280,7 +280,7 @@ func init() {
 			"where that algorithm is unambiguous; (f) 12 long messages keep the ids they have alone while 24 goroutines compile them concurrently. distinct = distinct message source; non-trivial = has a placeholder or >= 12 bytes of text",
 		N: func(tier string) int {
 			if tier == "thorough" {
-				return 200000
+				return 60000
 			}
 			return 4000
 		},
